@@ -2,11 +2,12 @@
 import random, math
 
 RULES = {
-    'C12.B.trees': 'random expression trees of depth 1..6 over + - unary- abs *k k* /k %k (DMS, DDM; k a Python int or float, either sign; as right operand also a numpy int64 / float64 scalar) with leaves from all five classes (values in [-360,360] incl. 0, (-1,0) deg, minute/degree boundaries; intermediate magnitudes < 720): value equals the float evaluation within 1e-8 arc-seconds, result has the class of its left operand; comparisons == != < > agree with the floats',
+    'C12.B.trees': 'random expression trees of depth 1..6 over + - unary- abs *k k* /k %k (DMS, DDM; k a Python int or float, either sign; as right operand also a numpy int64 / float64 scalar) with leaves from all five classes (values in [-360,360] incl. 0, (-1,0) deg, minute/degree boundaries; intermediate magnitudes < 720): value equals the float evaluation within 1e-8 arc-seconds plus the 1e-9 arc-second resolution of each intermediate result carried through the later factors (a * 7 * 2 / -1.5 * 7 magnifies an intermediate half-unit 65 times), result has the class of its left operand; comparisons == != < > agree with the floats',
     'C12.B.compare': 'ordered pairs of angle objects of all 25 class pairs, values drawn so that exactly equal angles occur (whole degrees, half and quarter degrees, the same value in both classes) next to unequal ones: a == b, a != b, a < b, a > b each equal the same comparison of a.dec() and b.dec()',
     'C12.B.round': 'round(a, n) for DEC/GON/DMS/DDM objects, n in 0..6: changes the object by at most half a unit of the rounded place',
 }
 TOL = 1e-8 / 3600 + 4e-13
+U = 1e-9 / 3600          # resolution of one operation's result (HP notation holds 1e-9 arc-seconds): a later factor k multiplies it
 
 
 def chunks(tier, seed):
@@ -42,24 +43,27 @@ def work(item):
         if depth == 0 or rng.random() < 0.2:
             v = leafval()
             cls = rng.choice(CLS)
-            return (lambda: obj(cls, v)), v, '%s(%r)' % (cls.__name__, v), cls
+            return (lambda: obj(cls, v)), v, '%s(%r)' % (cls.__name__, v), cls, U
         op = rng.choice(['add', 'sub', 'neg', 'abs', 'mul', 'rmul', 'div', 'mod'])
         a = build(depth - 1)
         if a is None:
             return None
-        fa, va, da, ca = a
+        fa, va, da, ca, ea = a
         if op in ('add', 'sub'):
             b = build(depth - 1)
             if b is None:
                 return None
-            fb, vb, db, cb = b
+            fb, vb, db, cb, eb_ = b
             v = va + vb if op == 'add' else va - vb
             f = (lambda: fa() + fb()) if op == 'add' else (lambda: fa() - fb())
             d = '(%s %s %s)' % (da, '+' if op == 'add' else '-', db)
+            ea = ea + eb_ + U
         elif op == 'neg':
             v, f, d = -va, (lambda: -fa()), '-(%s)' % da
+            ea = ea + U
         elif op == 'abs':
             v, f, d = abs(va), (lambda: abs(fa())), 'abs(%s)' % da
+            ea = ea + U
         elif op in ('mul', 'rmul', 'div'):
             k = rng.choice([2, 3, 0.5, 1.5, 7, -2, -1.5])
             kk = rng.randint(0, 3)
@@ -69,6 +73,7 @@ def work(item):
             elif kk == 2 and op != 'rmul' and float(k).is_integer():
                 import numpy as np
                 k = np.int64(int(k))
+            ea = (ea / abs(float(k)) if op == 'div' else ea * abs(float(k))) + U
             if op == 'div':
                 v, f, d = va / k, (lambda: fa() / k), '(%s / %r)' % (da, k)
             elif op == 'mul':
@@ -80,25 +85,26 @@ def work(item):
                 return a
             k = rng.choice([360, 180, 90, 7.5, -360, -90])
             v, f, d = va % k, (lambda: fa() % k), '(%s %% %r)' % (da, k)
+            ea = ea + U
         if abs(v) >= 720:
             return None
-        return f, v, d, ca
+        return f, v, d, ca, ea
     r = dict(check='C12.B.trees', function='angles operators', n=0, keys=set(), failures=[], samples=[])
     for it in range(item['n']):
         t = build(rng.randint(1, 6))
         if t is None:
             continue
-        f, v, d, cls = t
+        f, v, d, cls, ebound = t
         r['n'] += 1
         r['keys'].add(d)
         try:
             o = f()
             got = o.dec()
-            if abs(got - v) > TOL * max(1.0, 1.0) + 1e-12 * abs(v) or type(o) is not cls:
-                r['failures'].append(dict(input=dict(expr=d), what='expression value or class differs from float evaluation', got=got, expected=v, cls=type(o).__name__, want_cls=cls.__name__))
+            if abs(got - v) > TOL + ebound + 1e-12 * abs(v) or type(o) is not cls:
+                r['failures'].append(dict(input=dict(expr=d, tol=TOL + ebound), what='expression value or class differs from float evaluation', got=got, expected=v, cls=type(o).__name__, want_cls=cls.__name__))
             u = build(rng.randint(0, 2))
             if u is not None:
-                g, w, e, _ = u
+                g, w, e, _, _e2 = u
                 p = g()
                 close = abs(v - w) < 1e-9 or abs(got - p.dec()) < 1e-9
                 if not close and ((o == p) != (v == w) or (o != p) != (v != w) or (o < p) != (v < w) or (o > p) != (v > w)):
@@ -159,7 +165,7 @@ def replay_case(check, inp):
     if 'expr' in inp:
         o = eval(inp['expr'], dict(objs, abs=abs))
         v = float(eval(inp['expr'], dict(flo, abs=abs)))
-        if abs(o.dec() - v) > TOL + 1e-12 * abs(v):
+        if abs(o.dec() - v) > inp.get('tol', TOL) + 1e-12 * abs(v):
             return dict(input=inp, observed=o.dec(), expected=v)
         return None
     if 'left' in inp and 'right' in inp and check == 'C12.B.compare':
